@@ -291,9 +291,10 @@ Proof. intros. apply Forall_app. now split. Qed.
 
 Theorem hex_roundtrip addr typ data :
   Forall byte data -> Z.of_nat (length data) < 256 -> 0 <= addr < 65536 -> byte typ ->
+  hex_rec_ok typ (Z.of_nat (length data)) data = true ->
   hex_decode (hex_encode addr typ data) = Some (Z.of_nat (length data), addr, typ, data).
 Proof.
-  intros Hd Hl Ha Ht. unfold hex_encode, hex_decode.
+  intros Hd Hl Ha Ht Hrec. unfold hex_encode, hex_decode.
   set (body := Z.of_nat (length data) :: addr / 256 :: addr mod 256 :: typ :: data).
   rewrite unhex_hex_of.
   2:{ apply Forall_byte_app.
@@ -302,7 +303,7 @@ Proof.
         + apply Z.mod_pos_bound; lia.  + apply Z.mod_pos_bound; lia.  + apply Ht.  + apply Ht.  + exact Hd.
       - constructor; [|constructor]. apply Z.mod_pos_bound. lia. }
   rewrite removelast_snoc, last_snoc, Z.eqb_refl. subst body. cbn [app].
-  rewrite Nat2Z.id. rewrite firstn_app_exact by reflexivity.
+  rewrite Nat2Z.id. rewrite firstn_app_exact by reflexivity. rewrite Hrec. cbn [andb].
   replace (addr / 256 * 256 + addr mod 256) with addr by (pose proof (Z.div_mod addr 256); lia). reflexivity.
 Qed.
 
@@ -335,15 +336,20 @@ Qed.
 (* S-records *)
 Theorem srec_roundtrip t addr data :
   In t [0;1;2;3;5;6;7;8;9] -> Forall byte data -> Z.of_nat (srec_asz t + length data + 1) < 256 ->
-  0 <= addr < 256 ^ Z.of_nat (srec_asz t) ->
+  0 <= addr < 256 ^ Z.of_nat (srec_asz t) -> (t = 5 \/ t = 6 -> data = []) ->
   srec_decode (srec_encode t addr data) = Some (t, addr, data).
 Proof.
-  intros Ht Hd Hl Ha. unfold srec_encode, srec_decode.
+  intros Ht Hd Hl Ha H56. unfold srec_encode, srec_decode.
   replace (48 + t - 48) with t by lia.
-  assert (Hr : (0 <=? t) && (t <=? 9) && negb (t =? 4) = true).
+  assert (Hr : (0 <=? t) && (t <=? 9) = true).
   { cbn in Ht. repeat (destruct Ht as [<-|Ht]; [reflexivity|]). contradiction. }
+  assert (Hasz : (1 <= srec_asz t)%nat).
+  { cbn in Ht. repeat (destruct Ht as [<-|Ht]; [cbn; lia|]). contradiction. }
   rewrite Hr.
   set (cnt := Z.of_nat (srec_asz t + length data + 1)).
+  assert (Hlen : srec_alen t cnt = Z.of_nat (srec_asz t)).
+  { unfold srec_alen. destruct ((t =? 5) || (t =? 6)) eqn:E; [|reflexivity].
+    apply orb_true_iff in E. rewrite !Z.eqb_eq in E. pose proof (H56 E) as Hd0. unfold cnt. rewrite Hd0. cbn [length]. lia. }
   set (body := cnt :: enc true (srec_asz t) addr ++ data).
   rewrite unhex_hex_of.
   2:{ apply Forall_byte_app.
@@ -354,11 +360,14 @@ Proof.
   assert (EX : length X = (srec_asz t + length data)%nat) by (unfold X; now rewrite app_length, enc_length).
   change (body ++ [ck]) with (cnt :: (X ++ [ck])). cbv iota beta.
   change (cnt :: X ++ [ck]) with (body ++ [ck]).
-  rewrite !removelast_snoc, last_snoc. rewrite app_length, EX. cbn [length].
-  replace (Z.of_nat (srec_asz t + length data + 1) =? cnt) with true by (symmetry; apply Z.eqb_refl).
-  replace (Nat.leb (srec_asz t) (srec_asz t + length data)) with true by (symmetry; apply Nat.leb_le; lia).
-  fold ck. rewrite Z.eqb_refl. cbn [andb]. unfold X.
-  rewrite firstn_app_exact by apply enc_length. rewrite skipn_app_exact by apply enc_length.
+  rewrite !removelast_snoc, last_snoc. rewrite Hlen, Nat2Z.id.
+  clear EX. unfold X. rewrite skipn_app_exact by apply enc_length.
+  rewrite <- app_assoc. rewrite firstn_app_exact by apply enc_length.
+  rewrite !app_length, enc_length. cbn [length].
+  replace (1 <=? Z.of_nat (srec_asz t)) with true by (symmetry; apply Z.leb_le; lia).
+  replace (Nat.eqb (srec_asz t + (length data + 1)) 0) with false by (symmetry; apply Nat.eqb_neq; lia).
+  replace (cnt =? Z.of_nat (srec_asz t) + Z.of_nat (length data) + 1) with true by (symmetry; apply Z.eqb_eq; unfold cnt; lia).
+  fold ck. rewrite Z.eqb_refl. cbn [andb negb].
   rewrite dec_enc by exact Ha. reflexivity.
 Qed.
 
@@ -366,7 +375,7 @@ Theorem srec_bad_checksum_rejected tc body ck : Forall byte body -> byte ck -> 2
   body <> [] -> srec_decode (83 :: tc :: hex_of (body ++ [ck])) = None.
 Proof.
   intros Hb Hc Hne Hnil. unfold srec_decode.
-  destruct ((0 <=? tc - 48) && (tc - 48 <=? 9) && negb (tc - 48 =? 4)); [|reflexivity].
+  destruct ((0 <=? tc - 48) && (tc - 48 <=? 9)); [|reflexivity].
   rewrite unhex_hex_of by (apply Forall_byte_app; [exact Hb | now constructor]).
   destruct body as [|c body]; [contradiction|].
   change ((c :: body) ++ [ck]) with (c :: (body ++ [ck])). cbv iota beta.
